@@ -58,6 +58,15 @@ pub fn run_line(line: &str) -> String {
                 Err(e) => format!("err {}", e.to_string().replace(' ', "_")),
             }
         }
+        // zdeck <frame-hex> : reference decoder, prints only length and XXH64 of the output (large outputs)
+        "zdeck" => {
+            let data = unhex(w[1]);
+            let mut out = Vec::new();
+            match zstd::stream::copy_decode(&data[..], &mut out) {
+                Ok(()) => format!("ok {} {}", out.len(), crate::xxh::xxh64(&out, 0)),
+                Err(e) => format!("err {}", e.to_string().replace(' ', "_")),
+            }
+        }
         // ztrain <max-size> <sample-hex>... : libzstd dictionary trainer
         "ztrain" => {
             let max: usize = w[1].parse().unwrap();
